@@ -94,7 +94,13 @@ def run(ctx, replay=None):
         rc, err, trace = ctx.harness("bcast", args, out_path=os.path.join(ctx.workdir, "%s.trace" % name), seed=seed, timeout=1500)
         for k, v in ctx.stat_lines(err).items():
             stats[k] = stats.get(k, 0) + v
-        if rc not in (0, 3):
+        if rc == 3:
+            last = open(trace).read().split("case ")[-1] if os.path.exists(trace) else ""
+            ctx.violation("a synchronous call of the broadcast API (Sender::send) blocked the thread: " + err[-200:].strip(),
+                          "c16 send blocks", "# the harness thread stopped making progress (watchdog); last case started:\ncase " + last
+                          + "\n# " + err[-1000:], name="send-blocks.txt")
+            continue
+        if rc != 0:
             ctx.violation("bcast harness crashed: " + err[-300:], "bcast-harness-crash", err[-4000:], name="bcast-crash.txt", no_input=True)
             continue
         rc2, lines = ctx.driver("bcast", trace)
